@@ -55,7 +55,7 @@ def jobs(tier):
     # run-time types: every instance list of <= NMAX entries over three class names that are prefixes of each other
     import itertools
     nmax = 2
-    quick_combos = [(), ("CA",), ("CAB",), ("CA", "CAB"), ("CAB", "CA"), ("CB", "CB")]
+    quick_combos = [(), ("CA", "CAB"), ("CAB", "CA"), ("CB", "CB")]
     RL = ["src/Alloc.c", "src/Tuple.c", "src/Num.c", "src/String.c", "src/Iter.c", "src/Exception.c", "stubs/throw.c"]
     for n in range(0, nmax + 1):
         for combo in itertools.product(["CA", "CAB", "CB"], repeat=n):
